@@ -299,6 +299,7 @@ func rulesC13(w *World, r *Report) {
 	// and an unrepresentable member in it — is never visited
 	{
 		reach := w.reachPkg(w.encoderRoots()...)
+		w.ruleAccessorKinds(r, "C13.R3 reflect accessors on the encode path meet the kind they require", func(fn *ssa.Function) bool { return reach[fn] || reach[rootFn(fn)] })
 		w.ruleLoopsProgress(r, "C13.R7 every loop on the encode path makes progress", 6, func(fn *ssa.Function) bool { return reach[fn] || reach[rootFn(fn)] })
 	}
 	w.ruleRefKeyIdentity(r, "C13.R6 only the same container is answered with a back-reference")
